@@ -133,6 +133,41 @@ def build(tier, seed):
                              "QuicSession.packet_number_server/client (anchors.state of the property)"])
 
 
+_DEC = {}
+
+
+def nonce_use(got_bytes, want, isserver, rng):
+    """-> message or None: a payload protected under the RFC nonce must come out of the real QuicDecryptor when it is given the reconstructed number"""
+    from cryptography.hazmat.primitives.ciphers.aead import AESCCM, AESGCM, ChaCha20Poly1305
+    if _DEC.get("unavailable"):
+        return None
+    name, cls, klen = rng.choice([("aes128gcm", AESGCM, 16), ("aes256gcm", AESGCM, 32), ("chacha20", ChaCha20Poly1305, 32), ("aes128ccm", AESCCM, 16)])
+    if name not in _DEC:
+        r = random.Random(name)
+        keys = [r.randbytes(klen), r.randbytes(12), r.randbytes(klen), r.randbytes(12)]
+        try:
+            from tlexport.quic.quic_decryptor import QuicDecryptor
+            _DEC[name] = (keys, QuicDecryptor(keys, cls, False), cls)
+        except (ImportError, AttributeError, TypeError):      # the class moved or is built differently (refactoring): this observation point is gone, the end-to-end part decides
+            _DEC["unavailable"] = True
+            return None
+    keys, dec, cls = _DEC[name]
+    key, iv = (keys[0], keys[1]) if isserver else (keys[2], keys[3])
+    nonce = (int.from_bytes(iv, "big") ^ want).to_bytes(12, "big")
+    plain, aad = rng.randbytes(rng.randrange(1, 40)), rng.randbytes(rng.randrange(1, 30))
+    ct = cls(key).encrypt(nonce, plain, aad)
+    try:
+        out = dec.decrypt(ct, got_bytes, aad, isserver)
+    except (AttributeError, TypeError):
+        _DEC["unavailable"] = True
+        return None
+    except Exception as e:
+        return f"packet number {want} ({name}): the real decryptor, given the reconstructed number, fails on a payload protected under the RFC 9001 nonce: {e!r}"
+    if bytes(out) != plain:
+        return f"packet number {want} ({name}): decrypted payload differs"
+    return None
+
+
 def eval_direct(case, rng, thorough):
     sess = make_session()
     ptype, kind = spaces()[case["space"]]
@@ -140,6 +175,7 @@ def eval_direct(case, rng, thorough):
     key = space_key(sess, ptype, isserver)
     d = state_dicts(sess)
     bad, classes, units = [], set(), 0
+    nonce_checks = [0]
     for largest in largest_values(rng, thorough):
         for tr in truncated_values(rng, largest, 8 * ln, thorough):
             for dd in d.values():
@@ -160,10 +196,17 @@ def eval_direct(case, rng, thorough):
                 continue
             if d[isserver][key] != max(largest, want):
                 bad.append(f"largest={largest} truncated={tr:#x} len={ln}: largest became {d[isserver][key]}, expected {max(largest, want)}")
+            if units % 40 == 0 or (want >= 1 << 32 and units % 4 == 0):
+                # "... and uses as AEAD nonce": what the function returned is handed to the real QuicDecryptor exactly as the session does it; the ciphertext was
+                # produced under nonce = iv XOR (RFC packet number as 96-bit big-endian integer), RFC 9001 5.3
+                nonce_checks[0] += 1
+                m = nonce_use(got, want, isserver, rng)
+                if m:
+                    bad.append(f"largest={largest} truncated={tr:#x} len={ln}: {m}")
             others = [v for dd in d.values() for k, v in dd.items() if not (dd is d[isserver] and k == key)]
             if any(v != 7777 for v in others):
                 bad.append(f"largest={largest} truncated={tr:#x}: another packet-number space was modified: {others}")
-    res = {"units": units, "classes": sorted(classes), "cls": [case["id"]], "nontrivial": units > 0, "mon": {"get_full_packet_number.compared": units},
+    res = {"units": units, "classes": sorted(classes), "cls": [case["id"]], "nontrivial": units > 0, "mon": {"get_full_packet_number.compared": units, "nonce_use.compared": nonce_checks[0]},
            "tags": [f"direct:len{ln}"], "sample": {"case": case["id"], "calls": units, "example": {"largest": 1 << 40, "truncated": 5, "len": ln, "rfc": rfc_decode(1 << 40, 5, 8 * ln)}}}
     if bad:
         res.update(v="violated", msg=f"{len(bad)} disagreement(s); first: {bad[0]}")
